@@ -89,3 +89,37 @@ C20 = simple_check("C20", "c20", "model_checking",
                  "directories that held no file at all before cleaning are don't-care (the pinned test removes them)",
                  "regeneration after cleaning is checked by C12's generator runs, not here"],
     trusted=["tmpfs file system semantics", "refclean model in harness/c20"])
+
+
+CODEC_ASSUME = ["schemas enter as the generator's intermediate JSON (the Java schema parser is a 0-byte file in this tree)",
+                "small-scope bounds: nesting depth <= 2 (3 on listed spines), collections <= 5 entries, strings <= 2 characters over the metacharacter set plus listed tokens and one 300-char string",
+                "Go strings that are not valid UTF-8 are not values of the Pegasus string type"]
+CODEC_TRUST = ["reflection bridge mc/bind (checked for identity AV->Go->AV on every case)", "reference codecs mc/ref", "schema universes mc/schema"]
+
+
+def codec_check(prop, part, level, rule, assumptions=(), gens=("v2", "root"), deadline_q=900, deadline_t=3300):
+    def fn(sc, tier, replay, t0):
+        universe = "codec-full" if tier == "thorough" else "codec-quick"
+        reports = []
+        gl = list(gens)
+        if replay:
+            doc = json.load(open(replay)).get("replay") or {}
+            gl = [doc.get("gen", "v2")]
+            universe = doc.get("universe", universe)
+        for gen in gl:
+            binary = D.build_with_bindings(sc, gen, "codec", universe)
+            env = {"VERIF_UNIVERSE": universe}
+            if replay:
+                p = subprocess.run([binary, "-gen", gen, "-replay", replay], env=dict(D.goenv(), **env))
+                return p.returncode
+            reports += D.run_shards(binary, gen, tier, max(1, D.NCPU // len(gl)), os.path.join(sc.dir, "out"),
+                                    extra_args=["-part", part], env=env,
+                                    deadline=(deadline_t if tier == "thorough" else deadline_q))
+        merged = D.merge_reports(reports)
+        return D.finish(prop, tier, level, merged, t0, rule=rule, assumptions=CODEC_ASSUME + list(assumptions),
+                        trusted_base=MC_ASSUME + CODEC_TRUST)
+    return fn
+
+
+C01 = codec_check("C01", "C01", "model_checking",
+    rule="bounded-exhaustive enumeration: every wrapper record of the schema universe (one per field type of the grammar x {required, optional, defaulted} + include chains + unions) x every value with at most one deviation from the base value over the full per-type alphabets (thorough: also every pair of field deviations over the reduced alphabets) x 5 wire formats is encoded and decoded by the real generated bindings; states = distinct values, transitions = encode/decode calls; a class is (outcome kind, format)")
